@@ -154,6 +154,7 @@ theorem step_oinv {s : Script} {c : Cfg} (hi : Inv s c) (h : OInv s c) (t : Nat)
         intro p hp
         simp [POut.pos, List.mem_range'] at hp
         have := hacc.2; simp at this; omega
+  | unw b n => simp only; exact same _ (by simp [hx]) _ _ _
   | dead b n => simpa using h
 
 theorem oinv_init (s : Script) (ps : Nat → List Req) : OInv s (init ps) := by
